@@ -10,9 +10,9 @@ git -C /repo worktree add -q --detach "$wt" HEAD
 cleanup() { git -C /repo worktree remove --force "$wt" >/dev/null 2>&1; rm -rf "$wt"; }
 trap cleanup EXIT
 cd "$wt"
-demo_clean=$(PYTHONPATH="$wt" PYTHONDONTWRITEBYTECODE=1 timeout 300 /venv/bin/python "$src/demo.py" >/dev/null 2>&1; echo $?)
+demo_clean=$(PYTHONHASHSEED=0 PYTHONPATH="$wt" PYTHONDONTWRITEBYTECODE=1 timeout 300 /venv/bin/python "$src/demo.py" >/dev/null 2>&1; echo $?)
 if ! git -C "$wt" apply "$src/patch.diff"; then echo "$id/$name: PATCH DOES NOT APPLY"; exit 1; fi
-demo_mut=$(PYTHONPATH="$wt" PYTHONDONTWRITEBYTECODE=1 timeout 300 /venv/bin/python "$src/demo.py" >/dev/null 2>&1; echo $?)
+demo_mut=$(PYTHONHASHSEED=0 PYTHONPATH="$wt" PYTHONDONTWRITEBYTECODE=1 timeout 300 /venv/bin/python "$src/demo.py" >/dev/null 2>&1; echo $?)
 tests=$(PYTHONPATH="$wt" PYTHONDONTWRITEBYTECODE=1 /venv/bin/python -m pytest -q -p no:cacheprovider --timeout=900 -q --deselect tests/cli_test.py --deselect tests/cling_test.py 2>&1 | tail -1)
 out=$(VF_SHRINK=0 VF_REPO="$wt" /verif/check "$id" quick 2>&1)
 rc=$?
